@@ -143,6 +143,29 @@ impl Property for C05Prop {
                         );
                     }
                 }
+                // the same program with its imported files at paths never used before in this process:
+                // what a file means is read from the file, not remembered from an earlier import of its path
+                if case["files"].as_object().is_some_and(|f| !f.is_empty()) {
+                    static FRESH: std::sync::atomic::AtomicU64 = std::sync::atomic::AtomicU64::new(0);
+                    let tag = format!("-fresh{}", FRESH.fetch_add(1, std::sync::atomic::Ordering::Relaxed));
+                    let moved = case::materialise_in(case["text"].as_str().unwrap_or(""), case, &tag);
+                    let dir_of = |t: &str| t.split("import \"").nth(1).and_then(|r| r.split("/lib").next()).map(str::to_string);
+                    let (d0, d1) = (dir_of(&text), dir_of(&moved));
+                    let m = moved.clone();
+                    let elsewhere = on_fresh_thread(move || outcome_of(&m));
+                    stats.eval();
+                    if let Some(d1) = &d1 {
+                        let _ = std::fs::remove_dir_all(d1);
+                    }
+                    let normal = |o: &str, d: &Option<String>| d.as_ref().map(|d| o.replace(d.as_str(), "@DIR@")).unwrap_or_else(|| o.to_string());
+                    if normal(&first, &d0) != normal(&elsewhere, &d1) {
+                        return fail(
+                            "C05:program:import-path",
+                            format!("`{text}`\n  imported files at their usual path: {first}\n  the same files at a path never imported before: {elsewhere}"),
+                        );
+                    }
+                    stats.label("program with imports: also run with its files at a fresh path");
+                }
                 stats.sample(6, || json!({"program": text, "outcome": first, "repetitions": reps}));
                 Verdict::Pass
             }
@@ -180,6 +203,13 @@ impl Property for C05Prop {
                     }
                     if a.conjoin(&b) != a0.conjoin(&b0) {
                         return fail("C05:types:conjoin", format!("conjoin(`{ta}`, `{tb}`) differs between instances"));
+                    }
+                    // the default value of the type (filler of exhausted iterators, initial value of `? T`)
+                    let default_of = |t: &Type| simplesl::variable::Variable::of_type(t).map(|v| canon::canon(&v).show());
+                    for (t, t0, text) in [(&a, &a0, &ta), (&b, &b0, &tb), (&u1, &(a0.clone() | b0.clone()), &format!("{ta}|{tb}"))] {
+                        if default_of(t) != default_of(t0) {
+                            return fail("C05:types:default", format!("the default value of `{text}` is {:?} on one instance and {:?} on another", default_of(t0), default_of(t)));
+                        }
                     }
                 }
                 stats.sample(3, || json!({"a": ta, "b": tb, "matches": m0.0}));
@@ -275,6 +305,12 @@ pub fn run(session: &Session) -> i32 {
         ("mut (int|string)|mut (float|bool)", "mut int|string 1"),
         ("()->(int|string)|()->(float|bool)", "() -> int|string { return 1; }"),
         ("((int|string, bool), int)|((float|(), bool), string)", "((1, true), 2)"),
+        // members without any value (a tuple with a `!` component): the filler comes from the others
+        ("(int, !)|int|string", "1"),
+        ("(!, float)|string|bool|int", "\"s\""),
+        ("struct{a: !}|float|[int]|bool", "2.5"),
+        ("[(int, !)]|(!, !)|string|int|()", "1"),
+        ("mut (int, !)|int|float|string", "1"),
     ] {
         for text in [
             format!("f := (a: [{u}]) -> any {{ it := a~; it(); return it(); }}; f([])"),
